@@ -342,7 +342,8 @@ package sftp
 
 //@ func (*Client).recvVersion
 //@   property C20, C19
-//@   requires c.ext != nil
+//@   requires c.ext != nil && c.Reader != nil
+//@   requires c.alloc == nil || c.alloc.used != nil
 
 //@ func (*File).readAt$2
 //@   property C20
